@@ -23,9 +23,9 @@ import traceback
 VERIF = os.path.dirname(os.path.dirname(os.path.abspath(__file__)))
 REPO = os.environ.get('VERIF_REPO', '/repo')
 COQ = os.path.join(VERIF, 'coq')
-WORK = os.environ.get('VERIF_WORK_DIR') or os.path.join(VERIF, '.work')
-EVID = os.environ.get('VERIF_EVIDENCE_DIR') or os.path.join(VERIF, 'evidence')
-REPL = os.environ.get('VERIF_REPLAY_DIR') or os.path.join(VERIF, 'replays')
+WORK = os.path.abspath(os.environ.get('VERIF_WORK_DIR') or os.path.join(VERIF, '.work'))
+EVID = os.path.abspath(os.environ.get('VERIF_EVIDENCE_DIR') or os.path.join(VERIF, 'evidence'))
+REPL = os.path.abspath(os.environ.get('VERIF_REPLAY_DIR') or os.path.join(VERIF, 'replays'))
 PY = '/venv/bin/python'
 NPROC = min(16, os.cpu_count() or 4)
 
